@@ -73,6 +73,10 @@ class Check:
     def floor(self, what: str, measured: int, minimum: int):
         """Instance-count floor: a rule that matches fewer sites than were confirmed by hand must not pass vacuously."""
         self.info.setdefault("floors", {})[what] = {"measured": measured, "minimum": minimum}
+        if measured < minimum and self.violations():
+            # a confirmed violation is already on record: report that rather than the thinned-out instance count
+            self.note(f"instance count for '{what}' is {measured} < {minimum} (violations already found)")
+            return
         if measured < minimum:
             raise AnalysisError(f"instance count for '{what}' is {measured}, below the confirmed floor {minimum}: "
                                 f"the anchor moved or the extractor is blind")
